@@ -140,7 +140,8 @@ class FortranRegularExpressions:
     PP_INCLUDE: Pattern = compile(r"[ ]*#[ ]*include[ ]*([\"\w\.]*)", I)
     PP_ANY: Pattern = compile(r"^[ ]*#:?[ ]*(\w+)")
     # Context matching rules
-    CALL: Pattern = compile(r"[ ]*CALL[ ]+[\w%]*$", I)
+    # ``last_level`` of ``IF (cond) CALL name`` is ``IF  CALL name``
+    CALL: Pattern = compile(r"[ ]*(?:IF[ ]*)?CALL[ ]+[\w%]*$", I)
     INT_STMNT: Pattern = compile(r"^[ ]*[a-z]*$", I)
     TYPE_STMNT: Pattern = compile(r"[ ]*(TYPE|CLASS)[ ]*(IS)?[ ]*$", I)
     PROCEDURE_STMNT: Pattern = compile(r"[ ]*(PROCEDURE)[ ]*$", I)
